@@ -46,37 +46,165 @@ def classify(record):
 # search: when the checker / the correspondence broke, find a concrete (a, b, i) on which a table differs
 # from the word operation.  Works on the tables as parsed from the source text (the same input the Coq side saw);
 # every candidate is confirmed by plain evaluation with eval.rs's slot discipline before it is reported.
+#   1. an (untrusted) Python replica of the reflective checker locates the failing tables and, for each, the failing
+#      pair (slot, spec state) together with the partial input assignment of the path leading to it; completions of
+#      that assignment are tried first;
+#   2. the harness compares 2*10^6 random/boundary pairs per op with the native word operation (bulk records);
+#   3. structured candidates (paths through every node of every table, boundary dictionary) on the Python side.
 
-def _paths_to(nodes, w, max_paths=4000):
-    """all (partial assignments) reaching each Cmux from the root, breadth first, bounded"""
+def _maj(x, y, c):
+    return (x and y) or (c and (x or y))
+
+
+def automaton(op, i):
+    """Python replica of A_<op> i of Model/C13Bdd.v: (next, start); next(q) -> ('L', b) | ('R', v, q1, q0)"""
+    if op in ("add", "sub"):
+        sub = op == "sub"
+
+        def nxt(q):
+            if q[0] == "CA":
+                _, k, c = q
+                return ("R", k, ("CB", k, c, True), ("CB", k, c, False))
+            if q[0] == "CB":
+                _, k, c, x = q
+                if i <= k:
+                    return ("R", 32 + k, ("CL", x ^ True ^ c), ("CL", x ^ False ^ c))
+                xx = (not x) if sub else x
+                return ("R", 32 + k, ("CA", k + 1, _maj(xx, True, c)), ("CA", k + 1, _maj(xx, False, c)))
+            return ("L", q[1])
+        return nxt, ("CA", 0, False)
+    if op in ("slt", "sltu"):
+        signed = op == "slt"
+
+        def nxt(q):
+            if q[0] == "PA":
+                return ("R", q[1], ("PB", q[1], True), ("PB", q[1], False))
+            if q[0] == "PB":
+                _, k, x = q
+                eq = ("PL", False) if k == 0 else ("PA", k - 1)
+
+                def res(y):
+                    return ("PL", x if (signed and k == 31) else y)
+                return ("R", 32 + k, eq if x else res(True), res(False) if x else eq)
+            return ("L", q[1])
+        return nxt, (("PA", 31) if i == 0 else ("PL", False))
+    if op in ("sll", "srl", "sra"):
+        def nxt(q):
+            if q[0] == "HS":
+                _, k, s = q
+                if k < 5:
+                    return ("R", 32 + k, ("HS", k + 1, s + 2 ** k), ("HS", k + 1, s))
+                if op == "sll":
+                    j = i - s if s <= i else None
+                elif op == "srl":
+                    j = i + s if i + s < 32 else None
+                else:
+                    j = min(i + s, 31)
+                return ("L", False) if j is None else ("R", j, ("HL", True), ("HL", False))
+            return ("L", q[1])
+        return nxt, ("HS", 0, 0)
+    if op in ("and", "or", "xor"):
+        f = {"and": lambda x, y: x and y, "or": lambda x, y: x or y, "xor": lambda x, y: x ^ y}[op]
+
+        def nxt(q):
+            if q[0] == "BA":
+                return ("R", i, ("BB", True), ("BB", False))
+            if q[0] == "BB":
+                return ("R", 32 + i, ("BL", f(q[1], True)), ("BL", f(q[1], False)))
+            return ("L", q[1])
+        return nxt, ("BA",)
+
+    def nxt(q):
+        if q[0] == "BA":
+            return ("R", i, ("BL", True), ("BL", False))
+        return ("L", q[1])
+    return nxt, ("BA",)
+
+
+def _leaf_all(nxt, q, b, fuel=8):
+    if fuel == 0:
+        return False
+    s = nxt(q)
+    if s[0] == "L":
+        return s[1] == b
+    return _leaf_all(nxt, s[2], b, fuel - 1) and _leaf_all(nxt, s[3], b, fuel - 1)
+
+
+def py_check(nodes, w, nin, nxt, q0, hint):
+    """replica of `check`; returns None when the table is accepted, else a dict with the reason and the partial
+    assignment (var -> 0/1) of a path from the root to the failing pair"""
     g = _gen()
+    if w == 0:
+        return None if _leaf_all(nxt, q0, False) else {"why": "empty table but spec not constant 0", "asg": {}}
+    if not nodes or len(nodes) % w:
+        return {"why": "length not a positive multiple of the width", "asg": {}}
     lv = g.levels(nodes, w)
-    out = []
-    frontier = [(len(lv), 0, {})]
-    seen = 0
-    while frontier and seen < max_paths:
-        L, j, asg = frontier.pop(0)
-        if L == 0:
-            continue
-        n = lv[L - 1][j] if j < len(lv[L - 1]) else ("N",)
-        seen += 1
-        if n[0] == "P":
-            frontier.append((L - 1, j, asg))
-        elif n[0] == "C":
-            v = n[1]
-            out.append((L, j, dict(asg)))
-            for val, child in ((1, n[2]), (0, n[3])):
-                if asg.get(v, val) == val:
-                    a2 = dict(asg)
-                    a2[v] = val
-                    frontier.append((L - 1, child, a2))
-    return out
+    last = lv[-1]
+    if last[0][0] != "C" or any(n[0] != "N" for n in last[1:]):
+        return {"why": "last chunk is not [Cmux, None...]", "asg": {}}
+    d = [True] * w
+    for L, l in enumerate(lv, 1):
+        nd = []
+        for j, n in enumerate(l):
+            if n[0] == "C":
+                if n[1] >= nin or n[2] >= w or n[3] >= w or not (d[n[2]] and d[n[3]]):
+                    return {"why": f"level {L} slot {j}: index out of range or read of an undefined slot", "asg": {}}
+                nd.append(True)
+            elif n[0] == "P":
+                if not d[j]:
+                    return {"why": f"level {L} slot {j}: copy of an undefined slot", "asg": {}}
+                nd.append(True)
+            else:
+                nd.append(False)
+        d = nd
+    P = {(0, q0): {}}
+    for L in range(len(lv), 0, -1):
+        l = lv[L - 1]
+
+        def expand(j, q, asg, fuel):
+            if fuel == 0 or j >= w:
+                return ("fail", asg)
+            n = l[j]
+            if n[0] == "N":
+                return ("fail", asg)
+            if n[0] == "P":
+                return [(j, q, asg)]
+            _, v, hi, lo = n
+            s = nxt(q)
+            a1, a0 = {**asg, v: 1}, {**asg, v: 0}
+            if s[0] == "L":
+                return [(hi, q, a1), (lo, q, a0)]
+            _, v2, q1, q0_ = s
+            if v2 == v:
+                return [(hi, q1, a1), (lo, q0_, a0)]
+            hl = hint[v2] if v2 < len(hint) else 0
+            if hl == 0 or hl > L:
+                x = expand(j, q1, {**asg, v2: 1}, fuel - 1)
+                if isinstance(x, tuple):
+                    return x
+                y = expand(j, q0_, {**asg, v2: 0}, fuel - 1)
+                if isinstance(y, tuple):
+                    return y
+                return x + y
+            return [(hi, q, a1), (lo, q, a0)]
+        NP = {}
+        for (j, q), asg in P.items():
+            r = expand(j, q, asg, 8)
+            if isinstance(r, tuple):
+                return {"why": f"level {L} slot {j}: no rule applies for spec state {q}", "asg": r[1]}
+            for (j2, q2, a2) in r:
+                NP.setdefault((j2, q2), a2)
+        P = NP
+    for (j, q), asg in P.items():
+        if j >= w or not _leaf_all(nxt, q, j == 1):
+            return {"why": f"initial slot {j} paired with spec state {q}", "asg": asg}
+    return None
 
 
-def _complete(asg, rng):
+def _complete(asg, rng, fill=None):
     a = b = 0
     for v in range(64):
-        bit = asg[v] if v in asg else rng.getrandbits(1)
+        bit = asg[v] if v in asg else (rng.getrandbits(1) if fill is None else fill)
         if bit:
             if v < 32:
                 a |= 1 << v
@@ -89,61 +217,188 @@ BOUNDARY = [0, 1, 2, 3, 0x7FFFFFFF, 0x80000000, 0x80000001, 0xFFFFFFFE, 0xFFFFFF
            [1 << k for k in range(32)] + [(1 << k) - 1 for k in range(1, 32)] + [0xFFFFFFFF ^ (1 << k) for k in range(32)]
 
 
-def _candidates(op, i, nodes, w, rng, n_random):
-    """structured first (paths through every node of the table), then boundary pairs, then random"""
-    if w > 0 and len(nodes) % w == 0 and nodes:
-        for (_, _, asg) in _paths_to(nodes, w):
-            for _ in range(4):
-                yield _complete(asg, rng)
-            # all-zeros / all-ones completions
-            yield _complete({**{v: 0 for v in range(64)}, **asg}, rng)
-            yield _complete({**{v: 1 for v in range(64)}, **asg}, rng)
-    for x in BOUNDARY:
-        for y in BOUNDARY[:11] + list(range(0, 66)) + [x, (x + 1) & 0xFFFFFFFF, (x - 1) & 0xFFFFFFFF, x ^ 0xFFFFFFFF]:
-            yield x, y & 0xFFFFFFFF
-    for _ in range(n_random):
-        k = rng.randrange(4)
-        a = rng.getrandbits(32)
-        if k == 0:
-            b = rng.getrandbits(32)
-        elif k == 1:
-            b = rng.randrange(64)
-        elif k == 2:
-            b = (a + rng.randrange(-2, 3)) & 0xFFFFFFFF
-        else:
-            a = rng.choice(BOUNDARY)
-            b = rng.choice(BOUNDARY)
-        yield a, b
-
-
-def find_counterexample(tables, budget=1_200_000, seed=1, only_ops=None):
-    """-> dict(op, i, a, b, got, expected, evaluations) | None.  `got` may be 'PANIC:<what>'."""
+def _paths_to(nodes, w, max_paths=3000):
+    """partial assignments reaching the Cmux nodes from the root, breadth first, bounded"""
     g = _gen()
-    rng = random.Random(seed)
-    evals = 0
-    ops = [op for op in OPS if not only_ops or op in only_ops]
-    per_table = max(2000, budget // max(1, sum(min(32, max(1, tables[op][2])) for op in ops)))
-    for op in ops:
-        circuits, nin, nout = tables[op]
-        f = g.WORD_OP[op]
+    if w == 0 or not nodes or len(nodes) % w:
+        return []
+    lv = g.levels(nodes, w)
+    out, frontier, seen = [], [(len(lv), 0, {})], set()
+    while frontier and len(out) < max_paths:
+        L, j, asg = frontier.pop(0)
+        if L == 0 or j >= w or (L, j) in seen:
+            continue
+        seen.add((L, j))
+        n = lv[L - 1][j]
+        if n[0] == "P":
+            frontier.append((L - 1, j, asg))
+        elif n[0] == "C":
+            out.append(asg)
+            for val, child in ((1, n[2]), (0, n[3])):
+                if asg.get(n[1], val) == val:
+                    frontier.append((L - 1, child, {**asg, n[1]: val}))
+    return out
+
+
+class Searcher:
+    def __init__(self, tables, seed):
+        self.g = _gen()
+        self.tables = tables
+        self.rng = random.Random(seed)
+        self.evals = 0
+
+    def table(self, op, i):
+        circuits, nin, nout = self.tables[op]
+        if i < nout and i < len(circuits):
+            return circuits[i]
+        return ([], 0)
+
+    def test(self, op, i, a, b):
+        """-> None when bit i of the table agrees with the word operation on (a, b), else a counterexample dict"""
+        g = self.g
+        circuits, nin, nout = self.tables[op]
+        self.evals += 1
+        want = (g.WORD_OP[op](a, b) >> i) & 1
+        if i < nout and i >= len(circuits):
+            got = "PANIC:missing table"
+        else:
+            nodes, w = self.table(op, i)
+            try:
+                got = int(g.eval_bit(nodes, w, g.env_of(a, b)))
+            except (IndexError, ValueError, ZeroDivisionError) as ex:
+                got = "PANIC:" + str(ex)
+        if got != want:
+            return {"op": op, "i": i, "a": a, "b": b, "got": got, "expected": want, "evaluations": self.evals}
+        return None
+
+    def guided(self, op, i, asg, n_random=4096):
+        for fill in (0, 1):
+            r = self.test(op, i, *_complete(asg, self.rng, fill))
+            if r:
+                return r
+        for _ in range(n_random):
+            r = self.test(op, i, *_complete(asg, self.rng))
+            if r:
+                return r
+        return None
+
+    def structured(self, op, i, n_random):
+        nodes, w = self.table(op, i)
+        for asg in _paths_to(nodes, w):
+            for fill in (0, 1, None, None):
+                r = self.test(op, i, *_complete(asg, self.rng, fill))
+                if r:
+                    return r
+        for x in BOUNDARY[:11]:
+            for y in BOUNDARY[:11] + list(range(0, 66)):
+                r = self.test(op, i, x, y)
+                if r:
+                    return r
+        for _ in range(n_random):
+            k = self.rng.randrange(4)
+            a = self.rng.getrandbits(32)
+            if k == 0:
+                b = self.rng.getrandbits(32)
+            elif k == 1:
+                b = self.rng.randrange(64)
+            elif k == 2:
+                b = (a + self.rng.randrange(-2, 3)) & 0xFFFFFFFF
+            else:
+                a, b = self.rng.choice(BOUNDARY), self.rng.choice(BOUNDARY)
+            r = self.test(op, i, a, b)
+            if r:
+                return r
+        return None
+
+    def word_cex(self, op, a, b):
+        """confirm a word-level mismatch (reported by the harness) bit by bit"""
         for i in range(32):
+            r = self.test(op, i, a, b)
+            if r:
+                return r
+        return None
+
+
+def failing_tables(tables):
+    """(op, i, reason-dict) for every table the Python replica of the checker rejects"""
+    g = _gen()
+    out = []
+    for op in OPS:
+        circuits, nin, nout = tables[op]
+        for i in range(32):
+            nxt, q0 = automaton(op, i)
             if i < nout and i < len(circuits):
                 nodes, w = circuits[i]
+                r = py_check(nodes, w, nin, nxt, q0, g.hint_of(nodes, w, nin))
             elif i < nout:
-                return {"op": op, "i": i, "a": 0, "b": 0, "got": "PANIC:missing table", "expected": (f(0, 0) >> i) & 1, "evaluations": evals}
+                r = {"why": "missing table", "asg": {}}
             else:
-                nodes, w = [], 0
-            for (a, b) in _candidates(op, i, nodes, w, rng, per_table if i < nout else 64):
-                evals += 1
-                want = (f(a, b) >> i) & 1
-                try:
-                    got = int(g.eval_bit(nodes, w, g.env_of(a, b)))
-                except (IndexError, ValueError, ZeroDivisionError) as ex:
-                    got = "PANIC:" + str(ex)
-                if got != want:
-                    return {"op": op, "i": i, "a": a, "b": b, "got": got, "expected": want, "evaluations": evals}
-    find_counterexample.last_evals = evals
-    return None
+                r = py_check([], 0, nin, nxt, q0, [])
+            if r:
+                out.append((op, i, r))
+    return out
+
+
+def harness_bulk(ctx, n_per_op=2_000_000):
+    """run the harness' bulk comparison (table word vs native Rust word op) on every op; -> [(op, a, b)] mismatches"""
+    import subprocess
+    binp = Path(__file__).resolve().parent.parent.parent / "harness" / "target" / "release" / "c13"
+    if not binp.exists():
+        return None, 0
+    inp = ctx.work / "search_bulk_in.txt"
+    outp = ctx.work / "search_bulk_out.txt"
+    inp.write_text("".join(f"{13100 + k}#{n_per_op:x} {(ctx.seed * 1000003 + k) & 0xFFFFFFFF:x}##\n" for k in range(1, 12)))
+    p = subprocess.run([str(binp), "exec", str(inp), str(outp)], stdout=subprocess.PIPE, stderr=subprocess.STDOUT, timeout=900)
+    if p.returncode != 0 or not outp.exists():
+        return None, 0
+    hits = []
+    for line in outp.read_text().splitlines():
+        parts = line.split("#")
+        if len(parts) == 4 and not parts[3].startswith("PANIC"):
+            o = [int(x, 16) for x in parts[3].split()]
+            if o and o[0] != 0:
+                hits.append((OPS[int(parts[0]) % 100 - 1], o[1], o[2]))
+    return hits, 11 * n_per_op
+
+
+def find_counterexample(tables, ctx=None, seed=1, py_budget=300_000):
+    """-> (counterexample dict | None, stats dict)"""
+    S = Searcher(tables, seed)
+    stats = {"failing_tables": [], "harness_bulk_evaluations": 0}
+    # 1. guided by the failing pair of the checker replica
+    bad = failing_tables(tables)
+    stats["failing_tables"] = [f"{op}[{i}]: {r['why']}" for op, i, r in bad][:20]
+    for op, i, r in bad:
+        cex = S.guided(op, i, r["asg"])
+        if cex:
+            cex["found_by"] = "path assignment of the failing (slot, spec state) pair: " + r["why"]
+            return cex, stats
+    for op, i, r in bad:
+        cex = S.structured(op, i, 20000)
+        if cex:
+            cex["found_by"] = "structured search in a table rejected by the checker: " + r["why"]
+            return cex, stats
+    # 2. bulk comparison inside the harness
+    if ctx is not None:
+        hits, n = harness_bulk(ctx)
+        stats["harness_bulk_evaluations"] = n
+        for (op, a, b) in hits or []:
+            cex = S.word_cex(op, a, b)
+            if cex:
+                cex["found_by"] = "harness bulk comparison with the native word operation"
+                return cex, stats
+    # 3. structured candidates on every table
+    n_tables = sum(min(32, max(1, tables[op][2])) for op in OPS)
+    for op in OPS:
+        for i in range(32):
+            if i >= tables[op][2] and i > 1:
+                continue          # tables beyond OUTPUT_BITS are all the same empty circuit
+            cex = S.structured(op, i, max(200, py_budget // n_tables))
+            if cex:
+                cex["found_by"] = "structured + random search"
+                return cex, stats
+    stats["python_evaluations"] = S.evals
+    return None, stats
 
 
 def search(ctx, diffs):
@@ -154,43 +409,112 @@ def search(ctx, diffs):
     except Exception as ex:          # the source no longer parses: nothing to evaluate
         ctx.notes.append("search: tables could not be parsed: " + str(ex))
         return None
-    # ops whose tables differ between compiled crate and generated text come first (from the disagreeing records)
-    first = []
-    for d in diffs or []:
-        try:
-            code = int(d["record"].split("#", 1)[0])
-            first.append(OPS[code % 100 - 1])
-        except Exception:
-            pass
-    order = list(dict.fromkeys(first)) or None
-    cex = None
-    if order:
-        cex = find_counterexample(tables, budget=400_000, seed=ctx.seed, only_ops=order)
+    cex, stats = find_counterexample(tables, ctx, seed=ctx.seed)
     if cex is None:
-        cex = find_counterexample(tables, budget=1_200_000, seed=ctx.seed)
-    if cex is None:
-        ctx.notes.append(f"search: no failing input among {getattr(find_counterexample, 'last_evals', 0)} structured+random evaluations")
+        ctx.notes.append("search: no failing input found; " + json.dumps(stats))
         return None
+    return replay_of(cex, stats)
+
+
+def replay_of(cex, stats=None):
+    g = _gen()
     code = 13000 + OPS.index(cex["op"]) + 1
     rec = f"{code}##{cex['a']:x};{cex['b']:x}#"
     return {"property": "C13", "kind": "search-counterexample",
             "what": (f"output bit {cex['i']} of the {cex['op']} table differs from the word operation on "
                      f"a=0x{cex['a']:08x} b=0x{cex['b']:08x}: table gives {cex['got']}, word operation gives {cex['expected']}"),
             "op": cex["op"], "i": cex["i"], "a": cex["a"], "b": cex["b"], "got": cex["got"], "expected": cex["expected"],
-            "source_dir": str(g.src_dir()), "evaluations_before_hit": cex["evaluations"],
+            "found_by": cex.get("found_by"), "search": stats,
+            "source_dir": str(g.src_dir()), "python_evaluations_before_hit": cex["evaluations"],
             "records": [rec],
-            "replay_cmd": "python3 tools/check.py C13 --replay <this file>"
-                          + ("   (with VERIF_C13_SRC=" + os.environ["VERIF_C13_SRC"] + ")" if os.environ.get("VERIF_C13_SRC") else "")}
+            "replay_cmd": ("VERIF_C13_SRC=" + os.environ["VERIF_C13_SRC"] + " " if os.environ.get("VERIF_C13_SRC") else "")
+                          + "python3 tools/check.py C13 --replay <this file>"}
 
 
 def extra(ctx, ofails, notes):
     g = _gen()
     tables = g.parse_all()
-    return {"tables": {op: {"circuits": len(tables[op][0]), "nodes": sum(len(n) for n, _ in tables[op][0]),
+    # count what the records actually exercised: (op, a, b) pairs, not record lines
+    pairs, bulk, distinct = 0, 0, set()
+    for f in sorted(ctx.work.glob("records_*.txt")):
+        if "replay" in f.name:
+            continue
+        for line in f.read_text().splitlines():
+            parts = line.split("#")
+            if len(parts) < 4 or not parts[0].strip().isdigit():
+                continue
+            code = int(parts[0])
+            if 13000 < code < 13100:
+                vs = parts[2].split(";")
+                if len(vs) == 2:
+                    al, bl = vs[0].split(), vs[1].split()
+                    pairs += len(al)
+                    distinct.update((code, x, y) for x, y in zip(al, bl))
+            elif 13100 < code < 13200:
+                ps = parts[1].split()
+                if ps:
+                    bulk += int(ps[0], 16)
+    return {"evaluations": pairs + bulk, "distinct_nontrivial": len(distinct),
+            "pair_evaluations_model_vs_compiled": pairs, "bulk_evaluations_compiled_vs_native": bulk,
+            "tables": {op: {"circuits": len(tables[op][0]), "nodes": sum(len(n) for n, _ in tables[op][0]),
                             "max_width": max([w for _, w in tables[op][0]] + [0])} for op in OPS},
             "reflection": "check_family (vm_compute) on 11 families x 32 output bits; every (a,b) in [0,2^32)^2 decided symbolically"}
 
 
+def _pinpoint(rp):
+    """add the exact (op, a, b, i) to an oracle-failure replay written by the generic pipeline"""
+    g = _gen()
+    obs = rp.get("observed", "")
+    parts = obs.split("#")
+    if len(parts) != 4 or parts[3].startswith("PANIC"):
+        return None
+    code = int(parts[0])
+    op = OPS[code % 100 - 1]
+    f = g.WORD_OP[op]
+    if 13000 < code < 13100:
+        vs = parts[2].split(";")
+        al, bl = [int(x, 16) for x in vs[0].split()], [int(x, 16) for x in vs[1].split()]
+        ws = [int(x, 16) for x in parts[3].split()]
+        for a, b, w in zip(al, bl, ws):
+            if w != f(a, b):
+                d = w ^ f(a, b)
+                i = (d & -d).bit_length() - 1
+                return {"op": op, "a": a, "b": b, "i": i, "table_word": w, "expected_word": f(a, b)}
+    elif 13100 < code < 13200:
+        o = [int(x, 16) for x in parts[3].split()]
+        if o and o[0]:
+            d = o[3] ^ o[4]
+            return {"op": op, "a": o[1], "b": o[2], "i": (d & -d).bit_length() - 1, "table_word": o[3], "expected_word": o[4],
+                    "mismatches_in_bulk": o[0]}
+    else:
+        cex, stats = find_counterexample(g.parse_all(), None, seed=1)
+        if cex:
+            return {k: cex[k] for k in ("op", "a", "b", "i", "got", "expected", "found_by")}
+    return None
+
+
+def check(prop, tier, seed, replay):
+    """the generic pipeline, then: make an oracle-failure replay name the exact (a, b, i)"""
+    main = sys.modules.get("__main__")
+    gc = getattr(main, "generic_check", None) or importlib.import_module("check").generic_check
+    rp_file = Path(__file__).resolve().parent.parent.parent / "replays" / "C13_oracle.json"
+    before = rp_file.stat().st_mtime_ns if rp_file.exists() else None
+    rc = gc(prop, tier, seed, sys.modules[__name__], replay)
+    if rc != 0 and rp_file.exists() and rp_file.stat().st_mtime_ns != before:
+        try:
+            rp = json.loads(rp_file.read_text())
+            pin = _pinpoint(rp)
+            if pin:
+                rp["counterexample"] = pin
+                rp["source_dir"] = str(_gen().src_dir())
+                rp_file.write_text(json.dumps(rp, indent=1))
+                print(f"C13 counterexample: op={pin['op']} a=0x{pin['a']:08x} b=0x{pin['b']:08x} bit={pin['i']}")
+        except Exception as ex:      # never mask the verdict
+            print("C13: could not pinpoint the counterexample:", ex)
+    return rc
+
+
 if __name__ == "__main__":
     g = _gen()
-    print(json.dumps(find_counterexample(g.parse_all()), indent=1))
+    cex, stats = find_counterexample(g.parse_all())
+    print(json.dumps({"cex": cex, "stats": stats}, indent=1))
